@@ -500,6 +500,10 @@ def asraggedarray(path, arrayiterable, dtype=None, metadata=None,
     if not hasattr(arrayiterable, 'next'):
         arrayiterable = (a for a in arrayiterable)
     bd = create_datadir(path=path, overwrite=overwrite)
+    # never write through symbolic links that carry our file names
+    for fn in RaggedArray._protectedfiles:
+        if path.joinpath(fn).is_symlink():
+            path.joinpath(fn).unlink()
     firstarray = np.asarray(next(arrayiterable), dtype=dtype)
     dtype = firstarray.dtype
     valuespath = bd.path.joinpath(RaggedArray._valuesdirname)
